@@ -8,7 +8,7 @@ assume ensures); library calls use the assumed models of pyvc.lib.
 import ast
 import z3
 
-from .core import (Arr, Ref, Obj, PyList, PyDict, View, Ctx, Hinted, Unsupported, EngineError, is_sym, to_real,
+from .core import (Arr, Ref, Obj, PyList, PyDict, View, Ctx, Hinted, Scoped, Unsupported, EngineError, is_sym, to_real,
                    to_int, as_term, conc_int, real_const, _unify, INT, REAL, BOOL)
 from . import source
 
@@ -61,7 +61,8 @@ class AbsObj:
 
 
 class State:
-    def __init__(self, env=None, heap=None, pc=None, ver=None, views=None, trace=None):
+    def __init__(self, env=None, heap=None, pc=None, ver=None, views=None, trace=None, tags=None):
+        self.tags = tags if tags is not None else {}       # id of a pc term -> tag (see core.Scoped)
         self.env = env if env is not None else {}
         self.heap = heap if heap is not None else {}
         self.pc = pc if pc is not None else []
@@ -71,7 +72,7 @@ class State:
 
     def fork(self):
         return State(dict(self.env), dict(self.heap), list(self.pc), dict(self.ver), dict(self.views),
-                     list(self.trace))
+                     list(self.trace), dict(self.tags))
 
     def alloc(self, c, content):
         i = next(c._cell)
@@ -92,7 +93,7 @@ class State:
         self.heap[ref.id] = content
         self.ver[ref.id] = self.ver.get(ref.id, 0) + 1
 
-    def assume(self, *conds):
+    def assume(self, *conds, tag=None):
         for x in conds:
             if x is True:
                 continue
@@ -100,6 +101,14 @@ class State:
                 self.pc.append(z3.BoolVal(False))
             else:
                 self.pc.append(x)
+                if tag:
+                    self.tags[x.get_id()] = tag
+
+    def assume_named(self, prefix, named):
+        for k, g in named:
+            g = g.goal if isinstance(g, (Hinted, Scoped)) else g
+            g = g.goal if isinstance(g, (Hinted, Scoped)) else g
+            self.assume(g, tag='%s.%s' % (prefix, k))
 
 
 def exc_is_subclass(name, handler):
@@ -143,6 +152,12 @@ class Exec:
         name = '%s#%d' % (kind, n)
         line = getattr(node, 'lineno', 0) if node is not None else 0
         hyps = list(st.pc)
+        if isinstance(goal, Scoped):
+            import fnmatch
+            keep = goal.keep
+            hyps = [h for h in hyps if h.get_id() not in st.tags
+                    or any(fnmatch.fnmatch(st.tags[h.get_id()], pat) for pat in keep)]
+            goal = goal.goal
         if isinstance(goal, Hinted):
             hyps = hyps + [d for d in goal.defs if d is not True]
             for i, lem in enumerate(goal.lemmas):
@@ -158,9 +173,16 @@ class Exec:
         return name
 
     def oblige_all(self, kind, st, goals, node=None):
+        """named clauses are proved in order, each one with the earlier clauses as extra hypotheses
+        (a conjunction proved left to right)"""
         if isinstance(goals, dict):
+            acc = st.fork()
             for k, g in goals.items():
-                self.oblige('%s.%s' % (kind, k), st, g, node)
+                self.oblige('%s.%s' % (kind, k), acc, g, node)
+                gg = g.goal if isinstance(g, (Hinted, Scoped)) else g
+                gg = gg.goal if isinstance(gg, (Hinted, Scoped)) else gg
+                if gg is not True:
+                    acc.assume(as_term(gg) if not is_sym(gg) else gg, tag='acc.%s' % k)
         elif isinstance(goals, (list, tuple)):
             for i, g in enumerate(goals):
                 self.oblige(kind, st, g, node)
@@ -215,6 +237,12 @@ class Exec:
             return m(node, st)
         except _Raise as r:
             return [(r.state, 'raise', r.exc)]
+        except Unsupported as e:
+            # only the innermost statement sees the state of the path that met the construct
+            if not getattr(e, 'checked', False) and not self.feasible(st, 2000):
+                return []            # the construct was met on a dead path only
+            e.checked = True
+            raise
         except _Fork as f:
             del self.obls[mark[0]:]
             self.counts = mark[1]
@@ -388,7 +416,20 @@ class Exec:
         s1, s2 = st, st.fork()
         s1.assume(cond)
         s2.assume(z3.Not(cond))
-        return self.exec_block(node.body, s1) + self.exec_block(node.orelse, s2)
+        outs = []
+        if self.feasible(s1):
+            outs += self.exec_block(node.body, s1)
+        if self.feasible(s2):
+            outs += self.exec_block(node.orelse, s2)
+        return outs
+
+    def feasible(self, st, timeout=150):
+        """False only when the path condition is definitely unsatisfiable (dead path: nothing to prove)"""
+        s = z3.Solver()
+        s.set('timeout', timeout)
+        for a in st.pc:
+            s.add(a)
+        return s.check() != z3.unsat
 
     def st_Try(self, node, st):
         if node.finalbody:
@@ -537,7 +578,7 @@ class Exec:
         body_st = havoc(entry)
         k = self.c.fresh('k%d' % ordinal)
         body_st.assume(lo_t <= k, k < hi_t)
-        body_st.assume(*_conj(inv(self.c, View(self.c, body_st.env, body_st.heap), v0, k)))
+        body_st.assume_named('inv%d' % ordinal, _named(inv(self.c, View(self.c, body_st.env, body_st.heap), v0, k)))
         self.assign(node.target, elem(k, body_st) if elem else k, body_st, node)
         outs = []
         for s2, kind, p in self.exec_block(node.body, body_st):
@@ -554,7 +595,7 @@ class Exec:
         # exit
         exit_st = havoc(entry)
         kx = z3.If(hi_t > lo_t, hi_t, lo_t)
-        exit_st.assume(*_conj(inv(self.c, View(self.c, exit_st.env, exit_st.heap), v0, kx)))
+        exit_st.assume_named('inv%d' % ordinal, _named(inv(self.c, View(self.c, exit_st.env, exit_st.heap), v0, kx)))
         for tn in _target_names(node.target):
             exit_st.env.pop(tn, None)
         outs.append((exit_st, 'next', None))
@@ -592,7 +633,7 @@ class Exec:
                         s.ver[cid] = s.ver.get(cid, 0) + 1
                 return s
             body_st = havoc(entry)
-            body_st.assume(*_conj(inv(self.c, View(self.c, body_st.env, body_st.heap), v0, None)))
+            body_st.assume_named('inv%d' % ordinal, _named(inv(self.c, View(self.c, body_st.env, body_st.heap), v0, None)))
             exit_st = body_st.fork()
             cond = self.truth(self.eval(node.test, body_st), body_st)
             body_st.assume(cond)
@@ -767,7 +808,7 @@ class Exec:
             if cv is not _MISSING:
                 return cv
             if mod == 'taurex.constants':
-                return taurex_constant(name)
+                return self.c.constant(name)
             try:
                 mi = source.load_module(mod)
             except (FileNotFoundError, IsADirectoryError):
@@ -988,6 +1029,8 @@ class Exec:
         if isinstance(op, (ast.In, ast.NotIn)):
             r = self.contains(b, a, st, node)
             return r if isinstance(op, ast.In) else self.c.Not(r)
+        if isinstance(a, NanRef) or isinstance(b, NanRef):
+            return isinstance(op, ast.NotEq)      # IEEE: every comparison with NaN is false except !=
         if self.is_arr(a, st) or self.is_arr(b, st):
             f = CMP[type(op)]
             return self.broadcast2(a, b, lambda x, y: f(*_unify(x, y)), st, node, kind='bool')
@@ -1007,6 +1050,8 @@ class Exec:
             return r if isinstance(op, ast.Eq) else self.c.Not(r)
         if not (is_sym(a) or is_sym(b)):
             return PYCMP[type(op)](a, b)
+        if is_sym(a) and is_sym(b) and a.eq(b):
+            return isinstance(op, (ast.Eq, ast.LtE, ast.GtE))      # reals are never NaN
         x, y = _unify(a, b)
         return CMP[type(op)](x, y)
 
@@ -1070,7 +1115,7 @@ class Exec:
 
     def binop(self, op, a, b, st, node):
         if isinstance(a, NanRef) or isinstance(b, NanRef):
-            raise Unsupported('arithmetic on NaN (extended floats are modelled only where a contract says so)')
+            return NanRef('computed')          # IEEE: any arithmetic with NaN is NaN (a fresh object, not the singleton)
         if self.is_arr(a, st) or self.is_arr(b, st):
             f = lambda x, y: self.scalar_binop(op, x, y, st, node, arrays=True)
             return self.broadcast2(a, b, f, st, node)
@@ -1485,6 +1530,18 @@ class Exec:
                 if not _is_one(x) and not _same(x, y):
                     self.oblige('safe.shape', st, as_term(x) == as_term(y), node)
         conv = to_real if a.kind == 'real' else (lambda x: x)
+        if self.c.mode == 'sym' and getattr(self.unit, 'store', 'ite') == 'fresh' and V is None \
+                and all(p[0] == 'i' for p in plan):
+            # select/store axioms on a fresh function instead of nested ite terms: keeps non-linear terms atomic
+            new = self.c.fresh_array('st', a.shape, a.kind)
+            idx = tuple(to_int(p[1]) for p in plan)
+            js = [self.c.fresh('j') for _ in plan]
+            st.assume(new.elem(idx) == conv(v))
+            same = z3.And(*[j == i for j, i in zip(js, idx)])
+            st.assume(z3.ForAll(js, z3.Implies(z3.Not(same), new.elem(tuple(js)) == a.elem(tuple(js))),
+                                patterns=[new.elem(tuple(js))]))
+            st.put(ref, new)
+            return
 
         def el(ix, plan=plan, a=a, V=V, v=v):
             conds = []
@@ -1578,6 +1635,10 @@ class Exec:
         if f.kind == 'repo':
             u = self.registry.get(f.target) or self.registry.get(_resolve_alias(f.target))
             if u is None:
+                short = f.target.split(':')[1]
+                if f.target in self.unit.inline or short in self.unit.inline:
+                    mi2, fn2, _ = source.find_function(_resolve_alias(f.target))
+                    return self._inline(fn2, {}, mi2, None, args, kwargs, st, node)
                 raise Unsupported('call to %s which has no contract' % f.target)
             return self.call_contract(u, args, kwargs, st, node)
         if f.kind == 'method':
@@ -1767,7 +1828,7 @@ class Exec:
             post = u.post(c, v0, v1, self.wrap_ret(ret, st)) if u.post else {}
         finally:
             c.assuming = False
-        st.assume(*[(g.goal if isinstance(g, Hinted) else g) for _, g in _named(post)])
+        st.assume_named(tag, _named(post))
         return ret
 
     def wrap_ret(self, ret, st):
